@@ -1686,6 +1686,22 @@ theorem iterL_corr (F : GF.GF) (mags : List Nat) : ∀ (locs restM : List Nat) (
           simp only [hset, stepC_ok]
           exact ih ms (i + 1) _ hd' (by simpa using hl)
 
+theorem magLoop_length {F : GF.GF} {omega locs : List Nat} : ∀ (rest : List Nat) (i : Nat) (ms : List Nat),
+    magLoop F omega locs rest i = .ok ms → ms.length = rest.length := by
+  intro rest
+  induction rest with
+  | nil => intro i ms h; simp only [magLoop] at h; cases h; rfl
+  | cons xi rest ih =>
+    intro i ms h
+    simp only [magLoop, bind, Except.bind] at h
+    cases hm : errorMagnitude F omega locs i xi with
+    | error e => simp only [hm] at h; cases h
+    | ok m =>
+      simp only [hm] at h
+      cases hr : magLoop F omega locs rest (i + 1) with
+      | error e => simp only [hr] at h; cases h
+      | ok ms' => simp only [hr] at h; cases h; simp [ih _ _ hr]
+
 theorem while_map' (R : τ → σ) (f : τ → Ctl τ ρ) (t : τ) {body : σ → Ctl σ ρ} {s : σ} {n : Nat}
     (hs : s = R t) (hb : ∀ t, body (R t) = mapS R (f t)) :
     whileLoop body n s = mapS R (whileLoop f n t) := by
